@@ -682,6 +682,7 @@ pub fn check_main(tier: Tier) -> i32 {
         "process_images": {"cold_starts": ws.process_starts, "note": "each worker re-executes itself between segments of 1..300 episodes, so per-process state of the tree under test starts cold that many times"},
         "harness_variants": variants.iter().map(|(n, _)| n.clone()).collect::<Vec<_>>(),
         "hung_episodes_skipped": hung_episodes,
+        "crate_side_activity": {"threads_started_by_the_crate_and_simulated": ws.sched.spawned_threads, "environment_lookups_answered_by_the_simulator": ws.sched.env_reads, "clock_readings": ws.sched.clock_reads, "note": "all 0 on the unchanged tree: the crate starts no thread, reads no clock and no environment variable"},
         "sync_facade": {"sync_points": ws.sched.sync_points, "blocked_yields": ws.sched.blocked_yields, "note": "the facade variant is fast_qr compiled against /verif/facade (std/core re-exported, sync primitives and atomics are scheduling points); on a tree without shared state both counters are 0"},
         "real_vs_stub": {
             "real": ["fast_qr QRBuilder/QRCode/SvgBuilder/ImageBuilder/to_str through the public API", "resvg/usvg/tiny-skia/png", "real OS threads (one runnable at a time)"],
